@@ -191,6 +191,11 @@ open RExpr in
 /-- `jacobian(x) = [[-30*x[0]**2 + 10*x[0] + 6, 10]]` -/
 def wangJ : List RExpr := [-(30 * (var 0) ^ 2) + 10 * var 0 + 6, 10]
 
+/-- `if data is None: data = 1` — data that are given are used verbatim (also `0`); likewise
+    `noise_std=1` is only the default of the signature -/
+def wangData (d : Option Rat) : Rat := match d with | some v => v | none => 1
+def wangStd (s : Option Rat) : Rat := match s with | some v => v | none => 1
+
 /-! ## data generation -/
 section noise
 variable {R : Type} [Zero R] [One R] [Add R] [Mul R] [Div R]
